@@ -60,7 +60,8 @@ def make_db(kind, d, FSM):
     return db
 
 
-def run_schedule(seed, kind, strategy, scratch, park=None, stick=0.9, pct_depth=2, packer=False, lines=True, collect_locs=False):
+def run_schedule(seed, kind, strategy, scratch, park=None, stick=0.9, pct_depth=2, packer=False, lines=True, collect_locs=False,
+                 force_undo=False):
     """one world, one schedule -> dict(c02=[...], c03=[...], sched failures, stats)"""
     from ZODB.POSException import ConflictError, ReadConflictError
     from ZODB.utils import u64, p64, z64
@@ -95,7 +96,12 @@ def run_schedule(seed, kind, strategy, scratch, park=None, stick=0.9, pct_depth=
                     r = c.root()
                     tok = '%s-%d-%d' % (name, k, next(uid))
                     idx = rnd.sample(range(NCELL), rnd.choice([1, 2, 2, 3]))
-                    for i in idx:
+                    sp_at = rnd.choice([None, None, 'before', 'middle', 'after', 'rolled-back'])
+                    if sp_at == 'before':
+                        tm.savepoint()
+                    for n_i, i in enumerate(idx):
+                        if sp_at == 'middle' and n_i == 1:
+                            tm.savepoint(rnd.random() < 0.5)
                         cell = r['c%d' % i]
                         t0 = cell.tok
                         rec['reads'].append((cell._p_oid, cell._p_serial, t0))
@@ -103,6 +109,15 @@ def run_schedule(seed, kind, strategy, scratch, park=None, stick=0.9, pct_depth=
                         cell.tok = tok
                         rec['writes'][cell._p_oid] = (tok, t0)
                         if cell.tok != tok:
+                            rec['own_write_lost'] = True
+                    if sp_at == 'after':
+                        tm.savepoint()
+                    elif sp_at == 'rolled-back':
+                        sp = tm.savepoint()
+                        junk = r['c%d' % idx[0]]
+                        junk.tok = 'junk-to-be-rolled-back'
+                        sp.rollback()
+                        if junk.tok != tok:
                             rec['own_write_lost'] = True
                     others = [i for i in range(NCELL) if i not in idx]
                     if others and rnd.random() < 0.4:
@@ -117,13 +132,12 @@ def run_schedule(seed, kind, strategy, scratch, park=None, stick=0.9, pct_depth=
                         dlt = rnd.randrange(1, 9)
                         cnt.value += dlt
                         rec['delta'] = dlt
+                    tm.get().note(tok)
                     s.log('commit_call', name)
                     tm.commit()
                     rec['outcome'] = 'ok'
                     rec['ret'] = s.log('commit_ret', name)
-                    ser = [r['c%d' % i]._p_serial for i in idx]
-                    rec['tid'] = max(ser)
-                    rec['tids'] = sorted(set(ser))
+                    rec['tid'] = None        # attributed after the run from the storage history (unique token)
                 except ConflictError as e:
                     rec['outcome'] = type(e).__name__
                     tm.abort()
@@ -171,6 +185,34 @@ def run_schedule(seed, kind, strategy, scratch, park=None, stick=0.9, pct_depth=
                     c = db.open(tm)
             c.close()
         return f
+    undo_tids = []
+
+    def undoer():
+        import base64
+        from ZODB.POSException import UndoError
+        tm = transaction.TransactionManager()
+        c = db.open(tm)
+        for k in range(2):
+            tm.begin()
+            s.yield_point('app')
+            try:
+                info = [x for x in db.undoInfo(0, 4) if str(x['description']).startswith(('w0-', 'w1-'))]
+            except UndoError:
+                info = []            # undo log disabled while a pack runs
+            if not info:
+                tm.abort()
+                continue
+            u = info[0]
+            try:
+                db.undo(u['id'], tm.get())
+                tm.get().note('undo ' + str(u['description']))
+                s.log('commit_call', 'u')
+                tm.commit()
+                ret = s.log('commit_ret', 'u')
+                undo_tids.append((ret, db.storage.lastTransaction() if False else None, base64.decodebytes(u['id'] + b'\n')))
+            except (UndoError, ConflictError):
+                tm.abort()
+        c.close()
     pres = []
 
     def packer_f():
@@ -186,12 +228,15 @@ def run_schedule(seed, kind, strategy, scratch, park=None, stick=0.9, pct_depth=
         s.spawn('r1', reader('r1', 3))
     if packer:
         s.spawn('p', packer_f)
+    with_undo = kind in ('file', 'demo-file') and (wrnd.random() < 0.5 or force_undo)
+    if with_undo:
+        s.spawn('u', undoer)
     ok = s.run(60)
     fails = s.failures()
     if not ok and not fails:
         fails.append(('watchdog', 60))
     out = {'c02': [], 'c03': [], 'sched': fails, 'pack': pres, 'switches': s.switches, 'decisions': len(s.trace), 'digest': s.digest(),
-           'locs': dict(s.locs) if collect_locs else None, 'overlap': 0, 'ok_commits': 0, 'conflicts': 0, 'reader_txns': 0}
+           'locs': dict(s.locs) if collect_locs else None, 'overlap': 0, 'ok_commits': 0, 'conflicts': 0, 'reader_txns': 0, 'undos': 0}
     if fails:
         # the world may hold locks for ever: do not touch it again
         return out
@@ -201,6 +246,11 @@ def run_schedule(seed, kind, strategy, scratch, park=None, stick=0.9, pct_depth=
     c = db.open(transaction.TransactionManager())
     st = db.storage
     oid_name = {}
+    it = st.iterator()
+    undo_rev_tids = {t.tid for t in it if t.description.startswith(b'undo ')}
+    if hasattr(it, 'close'):
+        it.close()
+    out['undos'] = len(undo_rev_tids)
     for i in range(NCELL):
         cell = c.root()['c%d' % i]
         oid = cell._p_oid
@@ -218,7 +268,18 @@ def run_schedule(seed, kind, strategy, scratch, park=None, stick=0.9, pct_depth=
         hist[oid] = revs
     cnt_final = c.root()['counter'].value
     c.close()
+    # attribute every successful writer transaction to the tid(s) under which its unique token was stored
+    for t in txlog:
+        if t['kind'] == 'w' and t['outcome'] == 'ok':
+            tok = list(t['writes'].values())[0][0]
+            tt = sorted({tid for oid in t['writes'] for (tid, tk, bb) in hist[oid] if tk == tok and tid not in undo_rev_tids})
+            t['tids'] = tt
+            t['tid'] = tt[0] if tt else z64
     commits = sorted((t['ret'], t['tid']) for t in txlog if t['kind'] == 'w' and t['outcome'] == 'ok')
+    # undo commits: the single undoer commits sequentially, so its k-th returned commit is the k-th undo transaction
+    for (ret, _, _), utid in zip(sorted(undo_tids), sorted(undo_rev_tids)):
+        commits.append((ret, utid))
+    commits.sort()
     out['ok_commits'] = len(commits)
     out['conflicts'] = len([t for t in txlog if t['kind'] == 'w' and t['outcome'] != 'ok'])
     # ---- C02: every transaction's reads fit one point of the commit order, no older than the last commit completed before its boundary
@@ -266,6 +327,8 @@ def run_schedule(seed, kind, strategy, scratch, park=None, stick=0.9, pct_depth=
     # ---- C03
     for oid, revs in hist.items():
         for a, b in zip(revs, revs[1:]):
+            if b[0] in undo_rev_tids:
+                continue                # an undo revision restores an earlier state by design
             if b[2] != a[1]:
                 if packer and a[0] <= pack_tid:
                     continue
@@ -281,7 +344,7 @@ def run_schedule(seed, kind, strategy, scratch, park=None, stick=0.9, pct_depth=
             if len(t['tids']) != 1:
                 v3.append(('one-transaction-stored-under-several-tids', t['client']))
             for oid, (tok, b) in t['writes'].items():
-                tids = [tid for (tid, tk, bb) in hist[oid] if tk == tok]
+                tids = [tid for (tid, tk, bb) in hist[oid] if tk == tok and tid not in undo_rev_tids]
                 if tids != [t['tid']]:
                     v3.append(('write-not-stored-exactly-once-under-the-commit-tid', tok, len(tids)))
             for (oid, serial) in t['rc']:
@@ -289,7 +352,7 @@ def run_schedule(seed, kind, strategy, scratch, park=None, stick=0.9, pct_depth=
                 if below and below[-1] != serial:
                     v3.append(('readCurrent-dependency-changed-before-commit', t['client'], oid_name[oid], u64(serial), u64(below[-1])))
     exp_cnt = sum(t['delta'] for t in txlog if t['kind'] == 'w' and t['outcome'] == 'ok')
-    if cnt_final != exp_cnt:
+    if cnt_final != exp_cnt and not undo_rev_tids:
         v3.append(('mergeable-counter-total-differs-from-sum-of-successful-deltas', cnt_final, exp_cnt))
     try:
         db.close()
